@@ -193,6 +193,29 @@ def rlp_list(payload):
     return rlp_hdr(True, len(payload)) + payload
 
 
+def rlp_item_len(b):
+    """total length of the RLP item a buffer begins with (header + payload), or None when the buffer does not
+    begin with a complete header; lenient about canonicity (used only to tell whether an input IS one complete item)"""
+    if not b:
+        return None
+    x = b[0]
+    if x < 0x80:
+        return 1
+    if x <= 0xB7:
+        return 1 + (x - 0x80)
+    if x <= 0xBF:
+        ll = x - 0xB7
+        if len(b) < 1 + ll:
+            return None
+        return 1 + ll + int.from_bytes(b[1:1 + ll], "big")
+    if x <= 0xF7:
+        return 1 + (x - 0xC0)
+    ll = x - 0xF7
+    if len(b) < 1 + ll:
+        return None
+    return 1 + ll + int.from_bytes(b[1:1 + ll], "big")
+
+
 SECP_N = 0xFFFFFFFFFFFFFFFFFFFFFFFFFFFFFFFEBAAEDCE6AF48A03BBFD25E8CD0364141
 
 
@@ -206,6 +229,11 @@ class Key:
             self.entry = b"secp256k1"
             r = oracle.q("pub k " + secret.hex()).split()
             self.pub = bytes.fromhex(r[1]) if r[0] == "ok" else None
+            self.pub_unc = None
+            if self.pub is not None:
+                r2 = oracle.q("secp_pk k " + self.pub.hex()).split()
+                if r2[0] == "ok":
+                    self.pub_unc = b"\x04" + bytes.fromhex(r2[2])   # 65-byte uncompressed SEC1 form of the same key
         elif kt == "ed" or (kt == "comb" and variant == "ed"):
             self.scheme = "ed"
             self.entry = b"ed25519"
